@@ -837,6 +837,12 @@ func runCopy(mode string, seed int64, tier string, sc *Script) map[string]any {
 			}
 			idx := u.AddIndex(KOCIIndex, mans, -1, "", map[string]string{"i": fmt.Sprint(i)})
 			pick := rng.Intn(len(mans))
+			wantRoot := func(p int) int {
+				if p < 0 {
+					return idx.ID
+				}
+				return mans[p]
+			}
 			conc := 1 + rng.Intn(3)
 			sc.Case("maproot-copy")
 			sc.NonTrivial()
@@ -862,12 +868,30 @@ func runCopy(mode string, seed int64, tier string, sc *Script) map[string]any {
 				return ix.Manifests[pick], nil
 			}
 			isrc := &srcTarget{instrSrc: instrSrc{inner: src, r: r}, t: src}
-			idst := &instrTarget{instrDst: instrDst{inner: dstT, r: r}, t: dstT}
+			it := &instrTarget{instrDst: instrDst{inner: dstT, r: r}, t: dstT}
+			var idst oras.Target = it
+			if i%2 == 1 {
+				// a destination that takes the root by reference (like a remote repository)
+				idst = &instrRefTarget{instrTarget: it}
+			}
+			// any subset of the callbacks may be set
+			switch (i / 2) % 4 {
+			case 1:
+				opts.PostCopy = nil
+			case 2:
+				opts.PreCopy = nil
+			case 3:
+				opts.PreCopy, opts.PostCopy, opts.OnCopySkipped = nil, nil, nil
+			}
+			if i%3 == 0 {
+				opts.MapRoot = nil
+				pick = -1
+			}
 			got, err := oras.Copy(ctx, isrc, "srcref", idst, "picked", opts)
 			res := "ok"
 			if err != nil {
 				res = "err:" + strings.ReplaceAll(err.Error(), " ", "_")
-			} else if u.IDOf(ocispec.Descriptor{MediaType: got.MediaType, Digest: got.Digest, Size: got.Size}) != mans[pick] {
+			} else if u.IDOf(ocispec.Descriptor{MediaType: got.MediaType, Digest: got.Digest, Size: got.Size}) != wantRoot(pick) {
 				res = "returned-other-root"
 			}
 			sc.Op(res, "cp remote res src=maproot dst=memory")
@@ -883,7 +907,7 @@ func runCopy(mode string, seed int64, tier string, sc *Script) map[string]any {
 				}
 			}
 			sc.Op(dup, "cp once")
-			sc.Op(presentSet(ctx, dstT, u), "cp xpresent all=%s", fmtSet(downClosure(u, []int{mans[pick]})))
+			sc.Op(presentSet(ctx, dstT, u), "cp xpresent all=%s", fmtSet(downClosure(u, []int{wantRoot(pick)})))
 			runs++
 			sc.Count("copy-maproot")
 		}
@@ -922,6 +946,9 @@ type instrRefTarget struct {
 
 func (s *instrRefTarget) PushReference(ctx context.Context, d ocispec.Descriptor, rd io.Reader, ref string) error {
 	n := s.r.u.IDOf(d)
+	s.r.mu.Lock()
+	s.r.pushes[n]++ // a push by reference is a push of the manifest
+	s.r.mu.Unlock()
 	if err := s.instrDst.inner.Push(ctx, d, rd); err != nil && !errors.Is(err, errdef.ErrAlreadyExists) {
 		return err
 	}
